@@ -268,8 +268,9 @@ def dimension_reduction(name, seed, heuristic, tol_dr=1e-4, eig_reg=None):
     spy = Spy().install()
     try:
         if name == 'T_asym_lmi':
-            seed = int(seed) - int(seed) % 2     # the constant-offset variant of T_asym_lmi (odd v, added in wave 14 for C01) is NOT used here: on the unchanged tree it gives
-                                                 # 'objective 1.1249 after the trace heuristic, optimum 1.40625' and that observation is not triaged yet (DESIGN 9.16)
+            seed = int(seed) - int(seed) % 2     # the constant-offset variant of T_asym_lmi (odd v, wave 14, for C01) is not used here: finding F7 makes the dual-mode
+                                                 # value (1.40625) a loose bound there while the primal optimum is 1.125 with or without a heuristic, so 'optimum' is
+                                                 # not the dual value on that model (DESIGN 9.16, replayed natively)
         pep0, h0 = models.build(name, seed)
         t0 = solve(pep0)
         w0 = spy.wrappers[-1]
